@@ -663,7 +663,6 @@ def _call_forms(ctx):
         'BilinearForm(f, nthreads=k).assemble(u, v)': lambda k, F: F(mass, nthreads=k).assemble(ub, vb),
         '@BilinearForm(nthreads=k) decorator': lambda k, F: F(nthreads=k)(mass).assemble(ub, vb),
         'BilinearForm(BilinearForm(f), nthreads=k)': lambda k, F: F(F(mass), nthreads=k).assemble(ub, vb),
-        'form(u, v) [__call__]': lambda k, F: F(mass, nthreads=k).assemble(ub),
         'assemble(u) [vbasis=None]': lambda k, F: F(mass, nthreads=k).assemble(ub),
         'elemental().todefault()': lambda k, F: F(mass, nthreads=k).elemental(ub, vb).todefault(),
         'elemental().toarray()': lambda k, F: F(mass, nthreads=k).elemental(ub, vb).toarray(),
